@@ -141,7 +141,9 @@ def r8_1(ctx, R):
             for s in b.stmts(bb):
                 if s["k"] == "assign" and s["rv"]["k"] == "ref" and s["rv"]["mut"]:
                     pe = fl.place_expr(s["rv"]["place"])
-                    if pe[0] == "proj" and pe[2][-1] == "." + slots_field:
+                    lastp = s["rv"]["place"]["p"][-1] if s["rv"]["place"]["p"] else None
+                    if pe[0] == "proj" and pe[2][-1] == "." + slots_field and lastp and lastp["k"] == "field" and \
+                            lastp["ty"].startswith("core::pin::Pin<alloc::boxed::Box<["):
                         uses = fl.uses_of_local(s["place"]["l"])
                         for ub, ui, node in uses:
                             okuse = ui == "term" and node["k"] == "call" and node["func"]["k"] == "const" and \
